@@ -14,6 +14,9 @@ from cv import graphs  # noqa: E402
 from cv.core import VERIF, Check  # noqa: E402
 from cayleypy import CayleyGraphDef, MatrixGenerator, create_graph  # noqa: E402
 
+# theorems `regenerated CayleyGraphDef methods (permutation branch) = model` (CvProps/C10g.lean; translator harness/extract/pylean.py)
+GEN_THEOREMS = []
+
 THEOREMS = [
     "Cv.C10.lrx4_created",
     "Cv.C10.c3_created",
@@ -255,6 +258,10 @@ def main():
     ck = Check("C10")
     rng = ck.rng
     ck.lean_obligations("CvProps.C10", THEOREMS)
+    if not ck.replay:
+        from cv.pygen_corr import gen_tie  # noqa: E402
+
+        gen_tie(ck, "C10g", GEN_THEOREMS, ("graphdef",))
     drv = ck.driver()
     if ck.replay:
         body = json.load(open(os.path.join(VERIF, ck.replay) if not os.path.isabs(ck.replay) else ck.replay))
